@@ -10,7 +10,8 @@ Ties: F  TestVerifC34Facts regenerates lean/AlgoVerif/Gen/OpTable.lean (the opco
 Monitors on the implementation alone (every line, modelled or not):
       M1 no PANIC: neither a panicError recovered by eval/check (PANIC-recovered) nor a panic escaping them (PANIC ...);
       M2 Cost <= the budget evaluation started with; M3 stack height <= 1000 after every completed step;
-      M4 every byte value on the stack / in scratch space <= 4096 after every completed step (tracer);
+      M4 every byte value on the stack / in scratch space <= 4096 after every completed step (the tracer scans the WHOLE
+         stack after every step, whatever the op's prototype declares; scratch after store/stores and periodically);
       M5 termination: at most budget+1 steps (the tracer aborts a longer run: NONTERM), and every completed step cost >= 1
          (Cost >= steps-1);
       M6 verdict rule: accept / reject only with exactly one uint on the final stack, non-zero / zero."""
@@ -77,6 +78,7 @@ def run(ctx, replay_ops=None):
         "program bytes are < 256; the uint64 arithmetic of the modelled ops is over Nat with the overflow tests of the code",
         "error classes are recognised from the error text of the real evaluator; ev=refused replays EvalContract's clear-state pooled-budget refusal",
         "Trace == nil (production path): step's disassembly-for-tracing branch is not modelled",
+        "the driver's sem models, besides the op family of Model.AVM, only the scalar `txn ApprovalProgram|ClearStateProgram|Note` of the evaluated transaction (pushes the environment's value after the field gate), so that long values from an any-typed op meet step's post-check in the correspondence run; all other field access is monitor-only",
     ]
     # ---- tie F (C34's table extractor first, so that Gen/OpTable.lean is the current tree's)
     rc, out = ctx.go_test(PKG, "TestVerifC3[14]Facts")
@@ -98,9 +100,15 @@ def run(ctx, replay_ops=None):
     if os.path.exists(corpus):
         env["VERIF_CORPUS"] = corpus
     ctx.cov["rule"] = ("one case = one program with its run parameters (mode, budget kind u/p/i, MaxCost, pool, Proto.LogicSigVersion, "
-                       "minAvmVersion, LogicSig args), run twice: `check` and `eval`. Generator: 55% table-driven well-formed instruction "
+                       "minAvmVersion, LogicSig args, and a transaction environment: ApprovalProgram / ClearStateProgram of the evaluated "
+                       "txn and of the second group member, Note, ApplicationArgs[0] and the approval program of ledger app 888 with "
+                       "lengths 10 / 4095 / 4096 / 4097 / 5000 / 8185 / 8192 in about a quarter of the cases), run twice: `check` and "
+                       "`eval`. Generator: 10% programs reading a field of the group through every txn / txna / gtxn / gtxna / gtxns / "
+                       "gtxnsa / txnas / gtxnas / gtxnsas / itxn / itxna / gitxn / gitxna form (all field names, the whole-program and "
+                       "...Pages fields favoured; app_params_get of the ledger app) and then measuring / duplicating / storing / "
+                       "concatenating the value; 50% table-driven well-formed instruction "
                        "streams (ops of the real table for that version/mode, valid immediates, stack set-up, label targets on "
-                       "instruction boundaries, optional subroutines with proto/frame ops), 20% assembled templates (self loop, "
+                       "instruction boundaries, optional subroutines with proto/frame ops), 15% assembled templates (self loop, "
                        "count-down loops burning the budget, stack growth to 1001, concat doubling past 4096, unbounded callsub "
                        "recursion, proto/frame_dig/frame_bury, dupn/popn, switch, match, scratch loops), 17% hand-laid branch layouts "
                        "(targets into immediates, pc 0, own start, len, past len, before the program; 2-byte and varint forms, "
